@@ -245,6 +245,7 @@ type ievent struct {
 	Ins  ssa.Instruction
 	Name string  // callee / field key
 	Args []*expr // append: target, elems…; store: value; call: arguments
+	Heap map[string]*expr // dynamic calls: the fields as they are when the callback runs
 }
 
 type icond struct {
@@ -305,6 +306,7 @@ type iframe struct {
 }
 
 type Interp struct {
+	bounds    map[string]int64 // largest value of an unsigned input symbol
 	Inline    func(fn *ssa.Function) bool
 	MaxVisits int
 	Paths     []*ipath
@@ -326,8 +328,12 @@ func (in *Interp) Run(fn *ssa.Function) {
 	in.nframe = 1
 	st.env[0] = map[ssa.Value]*expr{}
 	st.visits[0] = map[*ssa.BasicBlock]int{}
+	in.bounds = map[string]int64{}
 	for _, p := range fn.Params {
 		st.env[0][p] = mkSym(p.Name())
+		if w, ok := intWidth(p.Type()); ok && w > 0 && w < 63 {
+			in.bounds[p.Name()] = int64(1)<<uint(w) - 1
+		}
 	}
 	for i, fv := range fn.FreeVars {
 		st.env[0][fv] = mkSym(fmt.Sprintf("&free%d.%s", i, fv.Name()))
@@ -410,6 +416,33 @@ func (in *Interp) load(st *istate, ptr *expr) *expr {
 	case "elem":
 		// element of a slice value that was not written on this path
 		return mkRaw("idx", 0, "", ptr.args[0], ptr.args[1])
+	case "fieldptr":
+		return mkRaw("field", 0, ptr.name, in.load(st, ptr.args[0]))
+	}
+	// a struct whose fields were stored one by one
+	if ptr.op == "sym" {
+		var names []string
+		for k := range st.heap {
+			if strings.HasPrefix(k, ptr.key+".") && !strings.Contains(k[len(ptr.key)+1:], ".") && !strings.Contains(k[len(ptr.key)+1:], "[") {
+				names = append(names, k[len(ptr.key)+1:])
+			}
+		}
+		if len(names) > 0 {
+			sort.Strings(names)
+			args := make([]*expr, len(names))
+			for i, n := range names {
+				args[i] = st.heap[ptr.key+"."+n]
+			}
+			return mkRaw("struct", 0, strings.Join(names, ","), args...)
+		}
+	}
+	// a field of a struct variable that was assigned as a whole
+	if ptr.op == "sym" {
+		if i := strings.LastIndex(ptr.key, "."); i > 0 && !strings.HasSuffix(ptr.key, "]") {
+			if whole, ok := st.heap[ptr.key[:i]]; ok && whole.op != "struct" {
+				return mkRaw("field", 0, ptr.key[i+1:], whole)
+			}
+		}
 	}
 	v := mkSym(strings.TrimPrefix(ptr.key, "&") + "@0")
 	st.heap[ptr.key] = v
@@ -464,6 +497,11 @@ func (in *Interp) instrs(fr *iframe, b *ssa.BasicBlock, i int, st *istate, k fun
 		case *ssa.FieldAddr:
 			st0 := x.X.Type().Underlying().(*types.Pointer).Elem().Underlying().(*types.Struct)
 			base := in.val(fr, st, x.X)
+			if base.op == "elem" || base.op == "fieldptr" {
+				// field of an element of a slice value: read structurally
+				env[x] = mkRaw("fieldptr", 0, st0.Field(x.Field).Name(), base)
+				break
+			}
 			name := strings.TrimPrefix(base.key, "&")
 			if base.op != "sym" {
 				name = "(" + base.key + ")"
@@ -471,7 +509,20 @@ func (in *Interp) instrs(fr *iframe, b *ssa.BasicBlock, i int, st *istate, k fun
 			env[x] = mkSym("&" + name + "." + st0.Field(x.Field).Name())
 		case *ssa.Field:
 			st0 := x.X.Type().Underlying().(*types.Struct)
-			env[x] = mkRaw("field", 0, st0.Field(x.Field).Name(), in.val(fr, st, x.X))
+			sv := in.val(fr, st, x.X)
+			fname := st0.Field(x.Field).Name()
+			if sv.op == "struct" {
+				found := false
+				for j, n := range strings.Split(sv.name, ",") {
+					if n == fname {
+						env[x], found = sv.args[j], true
+					}
+				}
+				if found {
+					break
+				}
+			}
+			env[x] = mkRaw("field", 0, fname, sv)
 		case *ssa.IndexAddr:
 			base := in.val(fr, st, x.X)
 			idx := in.val(fr, st, x.Index)
@@ -498,7 +549,28 @@ func (in *Interp) instrs(fr *iframe, b *ssa.BasicBlock, i int, st *istate, k fun
 			}
 		case *ssa.BinOp:
 			a, c := in.val(fr, st, x.X), in.val(fr, st, x.Y)
-			e := mkOp(binNames[x.Op], a, c)
+			opn := binNames[x.Op]
+			// one spelling for powers of two: x/2^k ≡ x>>k and x%2^k ≡ x&(2^k-1) on unsigned
+			// operands, x*2^k ≡ x<<k
+			if cv, isC := c.isConst(); isC && cv > 0 && cv&(cv-1) == 0 {
+				k := int64(0)
+				for int64(1)<<uint(k) < cv {
+					k++
+				}
+				uns := false
+				if w, ok := intWidth(x.X.Type()); ok && w > 0 {
+					uns = true
+				}
+				switch {
+				case opn == "quo" && uns:
+					opn, c = "shr", mkConst(k)
+				case opn == "rem" && uns:
+					opn, c = "and", mkConst(cv-1)
+				case opn == "mul":
+					opn, c = "shl", mkConst(k)
+				}
+			}
+			e := mkOp(opn, a, c)
 			// arithmetic wraps at the operand width
 			if w, ok := intWidth(x.Type()); ok {
 				if cv, isC := e.isConst(); isC {
@@ -553,7 +625,17 @@ func (in *Interp) instrs(fr *iframe, b *ssa.BasicBlock, i int, st *istate, k fun
 		case *ssa.Store:
 			ptr := in.val(fr, st, x.Addr)
 			v := in.val(fr, st, x.Val)
+			for hk := range st.heap {
+				if strings.HasPrefix(hk, ptr.key+".") {
+					delete(st.heap, hk) // fields of a struct that is overwritten as a whole
+				}
+			}
 			st.heap[ptr.key] = v
+			if v.op == "struct" {
+				for j, n := range strings.Split(v.name, ",") {
+					st.heap[ptr.key+"."+n] = v.args[j]
+				}
+			}
 			if !strings.HasPrefix(ptr.key, fmt.Sprintf("&f%d.", fr.id)) {
 				st.events = append(st.events, ievent{Kind: "store", Ins: ins, Name: ptr.key, Args: []*expr{v, ptr}})
 			}
@@ -573,10 +655,27 @@ func (in *Interp) instrs(fr *iframe, b *ssa.BasicBlock, i int, st *istate, k fun
 				}
 				return
 			}
+			// decided by the value range of an unsigned input (a uint32 shifted right by 28 is below 16)
+			if c.op == "lt" || c.op == "le" {
+				if lo, ok := c.args[0].isConst(); ok {
+					if hi, okB := in.upperBound(c.args[1]); okB && (hi < lo || (c.op == "lt" && hi == lo)) {
+						in.block(fr, b.Succs[1], b, st, k)
+						return
+					}
+				}
+				if hi, ok := c.args[1].isConst(); ok {
+					if ub, okB := in.upperBound(c.args[0]); okB && (ub < hi || (c.op == "le" && ub == hi)) {
+						in.block(fr, b.Succs[0], b, st, k)
+						return
+					}
+				}
+			}
 			key, neg := c.key, false
 			if c.op == "ne" || c.op == "le" { // canonical polarity: eq / lt
 				n := mkOp("not", c)
 				key, neg = n.key, true
+			} else if c.op == "not" {
+				key, neg = c.args[0].key, true
 			}
 			if v, ok := st.known[key]; ok {
 				if v != neg {
@@ -614,6 +713,36 @@ func (in *Interp) instrs(fr *iframe, b *ssa.BasicBlock, i int, st *istate, k fun
 	}
 }
 
+// upperBound: the largest value a non-negative term can take, when the inputs' types tell.
+func (in *Interp) upperBound(e *expr) (int64, bool) {
+	switch e.op {
+	case "const":
+		return e.k, e.k >= 0
+	case "sym":
+		b, ok := in.bounds[e.key]
+		return b, ok
+	case "conv":
+		if e.k > 0 && e.k < 63 {
+			m := int64(1)<<uint(e.k) - 1
+			if b, ok := in.upperBound(e.args[0]); ok && b < m {
+				return b, true
+			}
+			return m, true
+		}
+	case "shr":
+		if c, ok := e.args[1].isConst(); ok && c >= 0 && c < 63 {
+			if b, okB := in.upperBound(e.args[0]); okB {
+				return b >> uint(c), true
+			}
+		}
+	case "and":
+		if c, ok := e.args[1].isConst(); ok && c >= 0 {
+			return c, true
+		}
+	}
+	return 0, false
+}
+
 // call handles one call; returns true when execution continued inside an inlined callee.
 func (in *Interp) call(fr *iframe, b *ssa.BasicBlock, i int, x *ssa.Call, st *istate, k func(*istate, []*expr)) bool {
 	env := st.env[fr.id]
@@ -634,9 +763,14 @@ func (in *Interp) call(fr *iframe, b *ssa.BasicBlock, i int, x *ssa.Call, st *is
 			if args[1].op == "slice" && args[1].args[0].op == "sym" && strings.HasPrefix(args[1].args[0].key, "&f") {
 				base := args[1].args[0].key
 				for n := 0; ; n++ {
-					v, ok := st.heap[fmt.Sprintf("%s[%d]", base, n)]
+					cell := mkSym(fmt.Sprintf("%s[%d]", base, n))
+					v, ok := st.heap[cell.key]
 					if !ok {
-						break
+						v = in.load(st, cell)
+						if v.op != "struct" {
+							delete(st.heap, cell.key)
+							break
+						}
 					}
 					ev.Args = append(ev.Args, v)
 				}
@@ -687,7 +821,14 @@ func (in *Interp) call(fr *iframe, b *ssa.BasicBlock, i int, x *ssa.Call, st *is
 		name = "dynamic"
 		args = append([]*expr{in.val(fr, st, cc.Value)}, args...)
 	}
-	st.events = append(st.events, ievent{Kind: "call", Ins: x, Name: name, Args: args})
+	ev := ievent{Kind: "call", Ins: x, Name: name, Args: args}
+	if name == "dynamic" {
+		ev.Heap = make(map[string]*expr, len(st.heap))
+		for hk, hv := range st.heap {
+			ev.Heap[hk] = hv
+		}
+	}
+	st.events = append(st.events, ev)
 	// pure library accessors keep a structural result so that two calls compare equal
 	if sc != nil && pureGetter(sc) != nil {
 		env[x] = mkRaw("call", 0, name, args...)
